@@ -18,7 +18,11 @@ import time
 
 def analyse(mods, item, shared_loader, clock_offset):
   io, config, load_pytd, serialize_ast, pickle_utils, pytd_utils = mods
-  opts = config.Options.create("prog.py", python_version=(3, 12), module_name="prog")
+  import os
+  # C04_LIB_DIR holds lib.pyi, a third module the family programs import (names of other modules become LateTypes /
+  # late_dependencies in the pickled stub)
+  opts = config.Options.create("prog.py", python_version=(3, 12), module_name="prog",
+                               pythonpath=os.environ.get("C04_LIB_DIR", ""))
   if item.get("loader") == "shared":
     loader = shared_loader[0]
     if loader is None:
